@@ -1,7 +1,138 @@
-import ColoVerif.Model.DetPlace
-namespace ColoVerif.C02
-open ColoVerif.DetPlace
+import ColoVerif.Proofs.DetPlaceFrame
+/-!
+# C02 — detailed placement keeps the placement legal at every exposed state
 
-theorem upd_read {α : Type} (f : Int → α) (i : Int) (a : α) : upd f i a i = a := upd_same f i a
+Model: `ColoVerif.DetPlace` (Model/DetPlace.lean), the doubly linked row lists of
+`DetailedPlacement` with the primitive moves of `DetailedPlacer` / `RowReordering`; tied to the C++
+by the primitives stream and the history replay of `harness/h_C02.cpp`.
+
+`Inv` = every test of `DetailedPlacement::check()` + symmetry of the links + orientation ≠ INVALID
++ y on the row + positive widths of optimised cells; it is decidable and evaluated by the driver on
+every constructed instance (`init ok`).
+-/
+namespace ColoVerif.C02
+open ColoVerif ColoVerif.DetPlace ColoVerif.DetPlace.State
+
+/-- Clause "the state built from a circuit is consistent", proved part: whatever
+`fromIspdCircuit` returns passed the model of the real `check()` (the constructor ends with it).
+Missing for the full statement below: that the links written by the constructor are symmetric and
+y/width/orientation are as `Inv` demands for every circuit of the domain (the driver evaluates the
+decidable `Inv` on every explored instance instead). -/
+theorem inv_init_partial (c : Circuit) (s : State) (e : fromIspdCircuit c = .ok s) : s.check = true := by
+  unfold fromIspdCircuit at e
+  split at e
+  · cases e
+  · unfold construct at e
+    simp only at e
+    split at e
+    · cases e
+    · split at e
+      · cases e
+      · split at e
+        · rename_i hc; injection e with e; exact e ▸ hc
+        · cases e
+
+/-- full strength of the construction clause (not proved; `Dom` = movable cells have positive
+placed width and a valid orientation) -/
+def inv_init_full_statement : Prop :=
+  ∀ (c : Circuit) (s : State),
+    (∀ cl ∈ c.cells, ¬ cl.fixed → 0 < cl.placedWidth ∧ cl.orient ≠ Orient.INVALID) →
+    fromIspdCircuit c = .ok s → Inv s ∧ s.allPlaced = true
+
+/-- `unplace` of a placed cell keeps the invariant (pointer surgery included) -/
+theorem inv_unplace {s : State} (h : Inv s) {c : Int} (hc : s.validCell c) (hp : s.row c ≠ -1) :
+    Inv (s.unplace c) := unplace_inv h hc hp
+
+/-- `place` of an unplaced optimised cell at a site of a valid row keeps the invariant whenever the
+real `canPlace` test lets it through -/
+theorem inv_place {s t : State} (h : Inv s) {c r p x : Int} (ok : PlaceOk s c r p)
+    (e : s.place c r p x = .ok t) : Inv t := place_inv h ok e
+
+/-- `swap` (all three branches: c2 before c1, c1 before c2, apart / different rows) -/
+theorem inv_step_swap {s t : State} (h : Inv s) {c1 c2 : Int} (e : s.step (.swap c1 c2) = .ok t) : Inv t :=
+  step_inv h e
+
+/-- `insert` with the integer midpoint `Int.tdiv` -/
+theorem inv_step_insert {s t : State} (h : Inv s) {c r p : Int} (e : s.step (.insert c r p) = .ok t) : Inv t :=
+  step_inv h e
+
+/-- `shift`: any simultaneous x update that the model's re-check accepts (the code trusts lemon) -/
+theorem inv_step_shift {s t : State} (h : Inv s) {mv : List (Int × Int)} (e : s.step (.shift mv) = .ok t) : Inv t :=
+  step_inv h e
+
+/-- `RowReordering::writeback` with arbitrary regions, orders and positions -/
+theorem inv_step_reorder {s t : State} (h : Inv s) {cells : List Int} {regions : List Region}
+    (e : s.step (.reorder cells regions) = .ok t) : Inv t := step_inv h e
+
+/-- every primitive move keeps the invariant -/
+theorem inv_step {s t : State} (h : Inv s) {op : Op} (e : s.step op = .ok t) : Inv t := step_inv h e
+
+/-- every state reachable by any sequence of moves (with arbitrary arguments) satisfies `Inv` -/
+theorem inv_run {s t : State} (h : Inv s) {ops : List Op} (e : s.run ops = .ok t) : Inv t := run_inv h e
+
+/-- cells that detailed placement does not optimise (width −1: fixed cells, multi-row cells,
+macros) keep x, y and orientation along every history; widths never change -/
+theorem ignored_frame {s t : State} {ops : List Op} (e : s.run ops = .ok t) :
+    t.width = s.width ∧ ∀ d, s.isIgnored d = true → t.x d = s.x d ∧ t.y d = s.y d ∧ t.orient d = s.orient d := by
+  have := run_frame e
+  exact ⟨this.1, fun d hd => this.2 d (by simpa [isIgnored] using hd)⟩
+
+/-- Legality read off the invariant, proved part: a placed cell is an optimised cell of positive
+width, sits at its row's y in an allowed row with a valid orientation, does not overlap its
+predecessor or successor and the first / last cell of a row is inside the row. -/
+theorem inv_legal_partial {s : State} (h : Inv s) {c : Int} (hc : s.validCell c) (hp : s.row c ≠ -1) :
+    s.validRow (s.row c) ∧ 0 < s.width c ∧ s.y c = s.rowY (s.row c) ∧ s.orient c ≠ Orient.INVALID ∧
+    s.boundaryBefore c ≤ s.x c ∧ s.x c + s.width c ≤ s.boundaryAfter c := by
+  have L := h.link hc
+  have C := h.cell hc
+  unfold LinkOk at L
+  unfold CellOk at C
+  have C2 := C.2 hp
+  have C1 := C.1 C2.1
+  refine ⟨h.placed_row hc hp, C1.2, C2.2.2.2, C1.1, ?_, ?_⟩
+  · unfold boundaryBefore
+    split
+    · rename_i h1; exact ((L.2.2 hp).2.1 h1).2
+    · rename_i h1; exact ((L.2.2 hp).1 h1).2.2.1
+  · unfold boundaryAfter
+    split
+    · rename_i h1; exact ((L.2.2 hp).2.2.2 h1).2
+    · rename_i h1; exact ((L.2.2 hp).2.2.1 h1).2.2.1
+
+/-- full strength of the legality clause (not proved: needs the transitive order along the links —
+any two cells of a row, not only neighbours — and the row ends for inner cells; supported by the
+direct oracle `vc::checkLegal` in every callback and by `inv_legal_partial`) -/
+def inv_legal_full_statement : Prop :=
+  ∀ s : State, Inv s → s.allPlaced = true →
+    ∀ c d : Int, s.validCell c → s.validCell d → c ≠ d → s.row c ≠ -1 → s.row d = s.row c →
+      (s.x c + s.width c ≤ s.x d ∨ s.x d + s.width d ≤ s.x c) ∧
+      s.rowMinX (s.row c) ≤ s.x c ∧ s.x c + s.width c ≤ s.rowMaxX (s.row c)
+
+/-- the arithmetic fact behind `positionOnInsert` / `positionsOnSwap`: the C++ midpoint
+(truncating division) of a site that is wide enough lies inside the site -/
+theorem midpoint_in_site (b e w : Int) (h : b ≤ e - w) : b ≤ (b + e - w).tdiv 2 ∧ (b + e - w).tdiv 2 + w ≤ e := by
+  rcases Int.le_total 0 (b + e - w) with hs | hs
+  · rw [Int.tdiv_eq_ediv_of_nonneg hs]; omega
+  · have e1 : (b + e - w).tdiv 2 = -((-(b + e - w)) / 2) := by
+      have := Int.neg_tdiv (-(b + e - w)) 2
+      rw [Int.neg_neg] at this
+      rw [this, Int.tdiv_eq_ediv_of_nonneg (by omega)]
+    rw [e1]; omega
+
+/-! non-vacuity: a concrete two-row state built by the model's constructor satisfies `Inv`, and a
+history of all four kinds of moves runs on it -/
+def tiny : Circuit :=
+  { cells := [⟨2, 2, 0, 0, .N, false, false, .ANY⟩, ⟨3, 2, 4, 0, .N, false, false, .ANY⟩,
+              ⟨2, 2, 1, 2, .FS, false, false, .SAME⟩, ⟨2, 4, 8, 0, .N, false, false, .ANY⟩],
+    nets := [],
+    rows := [⟨⟨0, 10, 0, 2⟩, .N⟩, ⟨⟨0, 10, 2, 4⟩, .FS⟩] }
+
+def tinyOps : List Op :=
+  [.swap 0 1, .insert 2 0 0, .shift [(2, 6)], .reorder [1, 0] [⟨0, -1, [(0, 0), (1, 2)]⟩]]
+
+example : (match fromIspdCircuit tiny with
+           | .ok s => decide (Inv s) && s.isIgnored 3 &&
+                      (match s.run tinyOps with | .ok t => decide (Inv t) | .error _ => false)
+           | .error _ => false) = true := by decide
 
 end ColoVerif.C02
